@@ -242,6 +242,7 @@ func doProperty(repo, verif, property, tier string, seed int) int {
 	nErr, nViol, nKnown, discharged, evaluated, nontrivial, totalSites := 0, 0, 0, 0, 0, 0, 0
 	nrep := 0
 	usedKnown := map[int]bool{}
+	var baselineIdentities []string
 	for _, o := range obs {
 		if o.Thorough && tier != "thorough" {
 			continue
@@ -265,6 +266,7 @@ func doProperty(repo, verif, property, tier string, seed int) int {
 			verdict = "error"
 		}
 		for _, v := range res.Violations {
+			baselineIdentities = append(baselineIdentities, v.Identity)
 			matched := false
 			for i, k := range known {
 				if k.identity == v.Identity {
@@ -306,6 +308,39 @@ func doProperty(repo, verif, property, tier string, seed int) int {
 		s.Verdict = verdict
 		samples = append(samples, s)
 	}
+	// thorough tier: canary sweep
+	var canaryResults []rules.CanaryResult
+	canApplicable, canDetected, canSilentOK := 0, 0, 0
+	if tier == "thorough" {
+		baseline := map[string]bool{}
+		for _, id := range baselineIdentities {
+			baseline[id] = true
+		}
+		for _, c := range rules.Canaries() {
+			if c.Property != property {
+				continue
+			}
+			cr := rules.RunCanary(repo, filepath.Join(verif, "bin"), c, property, baseline)
+			canaryResults = append(canaryResults, cr)
+			switch cr.Status {
+			case "detected":
+				canApplicable++
+				canDetected++
+			case "silent-as-expected":
+				canApplicable++
+				canSilentOK++
+			case "MISSED":
+				canApplicable++
+				fmt.Printf("ERROR canary %s (%s) is applicable and compiles but no obligation of %s reports it: the check is defective\n", cr.ID, cr.File, property)
+				nErr++
+			case "FALSE-ALARM":
+				canApplicable++
+				fmt.Printf("ERROR canary %s (%s) is a behaviour-preserving rewrite but is reported: %v\n", cr.ID, cr.File, cr.Reports)
+				nErr++
+			}
+		}
+		fmt.Printf("canaries: %d registered for %s, %d applicable, %d detected, %d silent as expected\n", len(canaryResults), property, canApplicable, canDetected, canSilentOK)
+	}
 	for i, k := range known {
 		if usedKnown[i] {
 			continue
@@ -334,14 +369,18 @@ func doProperty(repo, verif, property, tier string, seed int) int {
 			"distinct_nontrivial":    nontrivial,
 			"rule": "evaluations = sites analysed (call sites, field accesses, function paths, orderings, codec tokens) summed over the property's obligations; " +
 				"distinct_nontrivial = obligations that resolved their anchors and analysed at least one site",
-			"samples":      samples,
-			"packages":     len(p.Pkgs),
-			"functions":    p.NumFuncs,
-			"checker_cmd":  fmt.Sprintf("./bin/verifcheck -property %s -tier %s", property, tier),
-			"trusted_base": []string{"go/types and go/ast of go1.26.8", "golang.org/x/tools v0.50.0 go/packages", "protoc-gen-go v1.36.3 and protoc-gen-connect-go v1.18.1 (regenerated protobuf code)", "pbgen (this repository's .proto subset parser)", "frozen rule tables in checker/internal/rules"},
-			"errors":       nErr,
-			"exhaustive":   false,
-			"not_decided":  info.NotDecided,
+			"samples":                     samples,
+			"packages":                    len(p.Pkgs),
+			"functions":                   p.NumFuncs,
+			"checker_cmd":                 fmt.Sprintf("./bin/verifcheck -property %s -tier %s", property, tier),
+			"trusted_base":                []string{"go/types and go/ast of go1.26.8", "golang.org/x/tools v0.50.0 go/packages", "protoc-gen-go v1.36.3 and protoc-gen-connect-go v1.18.1 (regenerated protobuf code)", "pbgen (this repository's .proto subset parser)", "frozen rule tables in checker/internal/rules"},
+			"errors":                      nErr,
+			"exhaustive":                  false,
+			"not_decided":                 info.NotDecided,
+			"canaries_applicable":         canApplicable,
+			"canaries_detected":           canDetected,
+			"canaries_silent_as_expected": canSilentOK,
+			"canaries":                    canaryResults,
 		},
 		"assumptions": []string{
 			"each obligation is a necessary condition of the property, not the property itself",
